@@ -18,9 +18,19 @@ CLASSES = {"H": (xgi.Hypergraph, hg.proj), "DH": (xgi.DiHypergraph, dhg.proj), "
 FAMS = [("ints", "int"), ("str", "int"), ("shift", "intfloat")]
 
 
-def seed_network(cls, g):
+def seed_network(cls, g, nodeless=False):
     N, E, A = g.node, g.edge, g.attrs
     H = CLASSES[cls][0]()
+    if nodeless:  # content without any node: empty edges, their attributes, network attributes
+        if cls == "H":
+            H.add_edge([], wt=[5])
+            H.add_edge([], idx=E(100))
+        elif cls == "DH":
+            H.add_edge(([], []), wt=[5])
+            H.add_edge(([], []), idx=E(100))
+        H["wt"] = [7]
+        H["color"] = 2
+        return H
     H.add_node(N(2), **A([[1, [0, 1]]], "n"))
     if cls == "H":
         H.add_edge([N(0), N(1)], **A([[2, [1, 5]]], "e"))
@@ -130,7 +140,7 @@ def project_all(cls, slots, g):
 def replay_behaviour(bid, acts, cls, fam, nslots=2):
     g = Gamma(*fam)
     slots = [None] * nslots
-    slots[0] = seed_network(cls, g)
+    slots[0] = seed_network(cls, g, nodeless=(hash(bid) % 5 == 0))
     recs = []
     pre, _ = project_all(cls, slots, g)
     ctor_seen = False
